@@ -18,6 +18,7 @@ use uuid::Uuid;
 fn normalized(rows: &[String]) -> Vec<String> {
     rows.iter()
         .filter(|r| !(r.starts_with("clients:") && r.contains("latest_version_id=t'00000000-0000-0000-0000-000000000000'") && r.contains("snapshot_version_id=NULL")))
+        .filter(|r| !(r.starts_with("proto-client") && (r.contains("exists=false") || (r.contains("latest=Some(00000000-0000-0000-0000-000000000000)") && r.contains("snapshot=None")))))
         .cloned()
         .collect()
 }
@@ -28,13 +29,28 @@ pub struct Recovered {
     pub integrity: String,
 }
 
+/// Protocol-visible state read through the storage API of the tree under test (covers data the
+/// code may keep outside the main database file): appended to the SQL rows as extra "rows".
+pub fn proto_rows(st: &dyn taskchampion_sync_server_core::Storage, clients: &[Uuid], ids: &[Uuid]) -> Vec<String> {
+    let d = crate::dump::dump_storage(st, clients, ids);
+    let mut out = vec![];
+    for (c, cd) in &d.clients {
+        out.push(format!("proto-client {c}: exists={} latest={:?} snapshot={:?} snapshot_data={:?} errors={:?}", cd.exists, cd.latest, cd.snapshot, cd.snapshot_data, cd.errors));
+        for (v, (p, len, h)) in &cd.versions {
+            out.push(format!("proto-version {c}: {v} parent={p} len={len} hash={h:016x}"));
+        }
+    }
+    out
+}
+
 /// Open an image with the code under test and read its logical content.
-pub fn recover(im: &Image) -> Result<Recovered, String> {
+pub fn recover(im: &Image, clients: &[Uuid], ids: &[Uuid]) -> Result<Recovered, String> {
     let d = ScratchDir::new("c04img");
     im.materialize(d.path()).map_err(|e| format!("materialize: {e}"))?;
-    let _st = SqliteStorage::new(d.path()).map_err(|e| format!("the database does not open: {e:#}"))?;
+    let st = SqliteStorage::new(d.path()).map_err(|e| format!("the database does not open: {e:#}"))?;
     let db = db_file(d.path());
-    let rows = dump_sql(&db).map_err(|e| format!("the database cannot be read: {e:#}"))?;
+    let mut rows = dump_sql(&db).map_err(|e| format!("the database cannot be read: {e:#}"))?;
+    rows.extend(proto_rows(&st, clients, ids));
     let integrity = {
         let con = rusqlite::Connection::open(&db).map_err(|e| format!("open: {e}"))?;
         let r: Result<String, _> = con.query_row("PRAGMA integrity_check", [], |r| r.get(0));
@@ -113,13 +129,24 @@ pub fn shard_run(tier: &str, seed: u64, replay_case: Option<usize>, shard: Shard
             None
         };
         vfs::mark("setup-done");
+        // logical states are recorded as SQL rows only; the protocol-level rows are added after the
+        // run (they need the final set of version ids) by re-reading images of the recorded states
         let snap = |subj: &Subject| -> Vec<String> {
             vfs::set_recording(false);
             let r = dump_sql(&subj.db_path().unwrap()).unwrap_or_else(|e| vec![format!("DUMP ERROR {e:#}")]);
             vfs::set_recording(true);
             r
         };
+        let mut state_images: Vec<ScratchDir> = vec![];
+        let keep_image = |subj: &Subject, v: &mut Vec<ScratchDir>| {
+            vfs::set_recording(false);
+            let d = ScratchDir::new("c04state");
+            let _ = crate::scratch::copy_dir(subj.dir.as_ref().unwrap().path(), d.path());
+            v.push(d);
+            vfs::set_recording(true);
+        };
         let mut states: Vec<Vec<String>> = vec![snap(&subj)];
+        keep_image(&subj, &mut state_images);
         // clients 2 and 3 start their chains from a non-nil id
         let mut latest = [Uuid::nil(), Uuid::nil(), rng.uuid(), rng.uuid()];
         let mut chain: [Vec<Uuid>; 4] = [vec![], vec![], vec![], vec![]];
@@ -152,6 +179,7 @@ pub fn shard_run(tier: &str, seed: u64, replay_case: Option<usize>, shard: Shard
                 break;
             }
             states.push(snap(&subj));
+            keep_image(&subj, &mut state_images);
         }
         drop(by_con);
         drop(subj);
@@ -159,6 +187,17 @@ pub fn shard_run(tier: &str, seed: u64, replay_case: Option<usize>, shard: Shard
         if !ok {
             continue;
         }
+        // protocol-level rows of every recorded state (read from the quiescent copies)
+        let all_ids: Vec<Uuid> = chain.iter().flatten().copied().chain(latest.iter().copied()).collect();
+        for (i, img) in state_images.iter().enumerate() {
+            // a copy taken while the bystander connection was open may carry a live WAL: opening it
+            // replays the WAL, which is exactly the quiescent logical state
+            if let Ok(st) = SqliteStorage::new(img.path()) {
+                let pr = proto_rows(&st, &clients, &all_ids);
+                states[i].extend(pr);
+            }
+        }
+        drop(state_images);
         out.executed += 1;
         cov.hit(format!("regime:{}:{}:{}", if bystander { "bystander" } else { "solo" }, if http { "http" } else { "lib" }, if big { "big-payloads" } else { "small-payloads" }));
         // ---- explore crash points
@@ -196,9 +235,11 @@ pub fn shard_run(tier: &str, seed: u64, replay_case: Option<usize>, shard: Shard
                     cur_req = None;
                     acked = k + 1;
                 }
-                continue;
+                if !m.starts_with("ret ") {
+                    continue;
+                }
             }
-            if ev.is_crash_point() {
+            if ev.is_crash_point() || matches!(ev, Ev::Mark(_)) {
                 point_no += 1;
                 points_in_req += 1;
                 if let (Ev::Write { file, .. }, Some(_)) = (ev, cur_req) {
@@ -208,7 +249,7 @@ pub fn shard_run(tier: &str, seed: u64, replay_case: Option<usize>, shard: Shard
                 }
                 let in_setup = !events[..ei].iter().any(|e| matches!(e, Ev::Mark(m) if m == "setup-done"));
                 let n_here = cur_req.map(|k| per_req[k + 1]).unwrap_or(0);
-                let sampled = matches!(ev, Ev::Sync { .. } | Ev::Delete { .. } | Ev::Truncate { .. }) || points_in_req % stride(n_here) == 0;
+                let sampled = matches!(ev, Ev::Sync { .. } | Ev::Delete { .. } | Ev::Truncate { .. } | Ev::Mark(_)) || points_in_req % stride(n_here) == 0;
                 if !in_setup && sampled {
                     let case = hi * 1_000_000 + ei;
                     if replay_case.map(|c| c == case).unwrap_or(true) {
@@ -231,9 +272,10 @@ pub fn shard_run(tier: &str, seed: u64, replay_case: Option<usize>, shard: Shard
                             }
                             cov.count(if iname.starts_with("process") { "images_process_crash" } else { "images_power_loss" }, 1);
                             let where_ = format!(
-                                "history {hi} ({}{}), crash before event #{ei} ({} on {}), {}",
+                                "history {hi} ({}{}), crash {} event #{ei} ({} on {}), {}",
                                 if bystander { "bystander connection, " } else { "" },
                                 if http { "HTTP" } else { "library" },
+                                if matches!(ev, Ev::Mark(_)) { "right after the acknowledgement," } else { "before" },
                                 ev.kind(),
                                 ev.file().map(|f| f.rsplit('/').next().unwrap_or(f)).unwrap_or(""),
                                 match cur_req {
@@ -243,7 +285,7 @@ pub fn shard_run(tier: &str, seed: u64, replay_case: Option<usize>, shard: Shard
                             );
                             let rep = json!({"origin": "c04", "case": case, "image": iname, "history": descr, "event_index": ei, "bystander": bystander, "http": http,
                                 "events_before": events[ei.saturating_sub(12)..ei].iter().map(|e| match e { Ev::Write { file, off, data } => format!("write {} @{off} +{}", file.rsplit('/').next().unwrap_or(file), data.len()), o => format!("{o:?}").chars().take(120).collect() }).collect::<Vec<_>>()});
-                            let bad = match recover(&im) {
+                            let bad = match recover(&im, &clients, &all_ids) {
                                 Err(e) => Some(format!("{where_}: image [{iname}] {e}")),
                                 Ok(r) => {
                                     if r.integrity != "ok" {
